@@ -286,11 +286,37 @@ def fn_params(fdecl):
     return [c for c in fdecl.get('inner', []) if c.get('kind') == 'ParmVarDecl']
 
 
+_SYSINC = None
+
+
+def system_include_flags():
+    """-nostdinc + the include search path of the *build* compiler (cc), so that library macros (FLT_DECIMAL_DIG, PATH_MAX,
+    O_*, E*) have the values the real build sees, not those of clang's own resource headers"""
+    global _SYSINC
+    if _SYSINC is None:
+        _SYSINC = []
+        try:
+            r = subprocess.run([os.environ.get('VERIF_CC', 'cc'), '-E', '-Wp,-v', '-xc', '/dev/null'], capture_output=True, text=True, timeout=60)
+            dirs, on = [], False
+            for line in r.stderr.splitlines():
+                if line.startswith('#include <...>'):
+                    on = True
+                elif line.startswith('End of search list'):
+                    on = False
+                elif on and line.strip():
+                    dirs.append(line.strip())
+            if dirs and all(os.path.isdir(d) for d in dirs):
+                _SYSINC = ['-nostdinc'] + [x for d in dirs for x in ('-isystem', d)]
+        except Exception:
+            _SYSINC = []
+    return list(_SYSINC)
+
+
 def dump_ast(path, flags=None, extra=(), text=None, config='', keep_pred=None, lang_flags=()):
     """Return a TU for `path` (or for in-memory `text`, with `path` used as its label)."""
     if flags is None:
         flags = flags_for(path)
-    flags = list(flags) + list(extra)
+    flags = list(flags) + list(extra) + system_include_flags()
     os.makedirs(CACHE, exist_ok=True)
     pp = preprocess(path, flags, text=text)
     h = hashlib.sha256()
